@@ -267,6 +267,25 @@ func init() {
 			fmt.Fprintf(out, "%s => %d %d %s\n", h, len(allErrors(r.err)), first, dumpNode(r.nodes[0], posExact, 0))
 		})
 	}
+	// stmt-go <entry>: "hex => <number of errors> <dump of node 1> ; <dump of node 2> ..." (every position exact; for list entry points all nodes)
+	commands["stmt-go"] = func(args []string) {
+		e := entryByName(args[0])
+		stdinLines(func(line string) {
+			h := strings.TrimSpace(line)
+			r := callEntry(e, "", unhx(h))
+			if r.panicked {
+				fmt.Fprintf(out, "%s => PANIC %s\n", h, r.panicVal)
+				return
+			}
+			var ds []string
+			for _, n := range r.nodes {
+				if !isNilNode(n) {
+					ds = append(ds, dumpNode(n, posExact, 0))
+				}
+			}
+			fmt.Fprintf(out, "%s => %d %s\n", h, len(allErrors(r.err)), strings.Join(ds, " ; "))
+		})
+	}
 	// type-sql: "hex => <hex of SQL() of the returned type>" for inputs accepted without error, "hex => ERR" otherwise
 	commands["type-sql"] = func(args []string) {
 		e := entryByName("ParseType")
